@@ -380,3 +380,26 @@ ADDED = {
 }
 for _k, _v in ADDED.items():
     PLAN[_k]["rule"] = PLAN[_k]["rule"] + "; ADDED: " + _v
+
+# ---- further additions (rounds 4-7 of seeded changes, DESIGN.md 14.3-14.6)
+ADDED2 = {
+    "C01": "a fifth of the instances have loose constraints (b += t e with t = 10..1000 on nonnegative / second-order / PSD blocks), so that the solver's initial point already has a comfortable margin",
+    "C02": "a fifth of the verdicts come from a solver built on different b and q and brought to the problem under test by in-place (index,value) updates",
+    "C03": "one planted instance in five has infinite right-hand sides in nonnegative rows; residual figures are not recomputed when the returned point has entries beyond 1e150",
+    "C04": "time limits include 1e20, f64::MAX and the smallest subnormal; workload mixed_badly_scaled: 12 000 (quick) / 240 000 (thorough) tiny problems mixing an exponential or power cone with second-order cones, every data block at its own magnitude (A 1e0..1e13, b 1e0..1e21, q 1e-12..1e3, P 1e-2..1e10, two significant digits)",
+    "C05": "a fifth of the feasible base problems are loosened; every Solved run must return a point in K x K* (relative margin -1e-6); third recorded mechanism signature: objective scale beyond the equilibration clip",
+    "C06": "conjunction strata (linear objective, sparse-expanded cone, both, both with large data, quadratic objective with sparse-expanded cone) judged by the 2 % rate rule",
+    "C07": "slice with second-order cones used as plain bounds (tail rows of A and b zero)",
+    "C08": "the empty update in each spelling (array, Vec, empty (index,value) pair)",
+    "C09": "planted values include -bound, -2 bound, -1e30 (never dropped); a panic on such data is a violation keyed by its site",
+    "C11": "third phase in a third of the cases: every value of P and A rewritten in place, short solve, all snapshot oracles again",
+    "C12": "a third of the refactor histories run without regularisation and flip diagonal signs (inertia changes); non-upper-triangular inputs also with reversed and rotated column orders",
+    "C13": "one pair in eight at an overall scale 1e-30..1e30; workload combined_rhs: the corrector right-hand side assembled by DefaultVariables::combined_step_rhs for a random list of symmetric cones, Mehrotra scale M in {1, 0.6, 0.25, random}, against lambda o lambda + M (W^-T ds o W dz) - sigma mu e built from single-cone operators, and the kappa entry",
+    "C14": "points of magnitude 1e-9..1e10; one point in seven exactly on the central path (s = -mu grad f*(z)); a third of the aged cone objects were scaled at the very point under test with another mu; conjugacy tolerance 5e-7 x conditioning x 1/(4 min alpha)",
+    "C15": "one point in eight at an overall scale 1e-40..1e40 (directions follow the point's scale)",
+    "C17": "an undecomposed result under merge 'none' is a violation unless the pattern, filled by symbolic elimination in the ordering obtained through the public QDLDL API and linked across disconnected parts, is complete",
+    "C19": "a third of the round-trip problems hold explicitly stored zeros; exponent vectors of generalised power cones sit at the edge of the constructor's tolerance half of the time; the load-time settings argument must show in the loaded solver's internal dimensions and scalings (compared with a reference construction); the post-acceptance solve probe runs only when the stored settings are intact",
+    "C20": "every other case the stream target accepts only 1, 7, 32 or 64 bytes per write; a third of the cases select the buffer again and solve a second time (one solve's output, or nothing when verbose was switched off)",
+}
+for _k, _v in ADDED2.items():
+    PLAN[_k]["rule"] = PLAN[_k]["rule"] + "; " + _v
